@@ -2,7 +2,9 @@
    state observed by the harness plus one operation; the model predicts the outcome:
      W off len fend pos app n   -> "fail" | "promote" | "ok n len' fend'"
      C fend len                 -> "ok off len fend'"   (Hstartwrite on a new tag/ref = hcreate)
-     T off len fend tlen        -> "fail" | "ok len'"                                               *)
+     T off len fend tlen        -> "fail" | "ok len'"
+     R off len fend pos n       -> "fail" | "ok count"      (Hread of n bytes at pos; n = 0 means to the end)
+     D off len fend newexists   -> "fail" | "ok off' len'"  (Hdupdd onto a new tag/ref that exists or not)      *)
 open Hfile_model
 let rec pos_of_int n = if n = 1 then XH else if n land 1 = 1 then XI (pos_of_int (n lsr 1)) else XO (pos_of_int (n lsr 1))
 let z n = if n = 0 then Z0 else if n > 0 then Zpos (pos_of_int n) else Zneg (pos_of_int (-n))
@@ -31,6 +33,20 @@ let () =
        let s = { dds = [ { dk = k1; doff = z (i 1); dlen = z (i 2) } ]; fend = z (i 3); img = (fun _ -> Z0) } in
        (match htrunc s k1 (z (i 4)) with
         | Some s' -> Printf.printf "ok %d\n" (iz (List.hd s'.dds).dlen)
+        | None -> print_string "fail\n")
+     | "R" :: _ ->
+       let s = { dds = [ { dk = k1; doff = z (i 1); dlen = z (i 2) } ]; fend = z (i 3); img = (fun _ -> Z0) } in
+       (match hread s k1 (z (i 4)) (z (i 5)) with
+        | Some l -> Printf.printf "ok %d\n" (List.length l)
+        | None -> print_string "fail\n")
+     | "D" :: _ ->
+       let k2 = (z 1, z 2) in
+       let old = { dk = k1; doff = z (i 1); dlen = z (i 2) } in
+       let s = { dds = (if i 4 <> 0 then [ { dk = k2; doff = z 0; dlen = z 0 }; old ] else [ old ]); fend = z (i 3); img = (fun _ -> Z0) } in
+       (match hdup s k2 k1 with
+        | Some s' -> (match dfind k2 s'.dds with
+                      | Some d -> Printf.printf "ok %d %d %d\n" (iz d.doff) (iz d.dlen) (iz s'.fend)
+                      | None -> print_string "lost\n")
         | None -> print_string "fail\n")
      | _ -> print_string "bad\n")
   done with End_of_file -> ())
